@@ -76,3 +76,5 @@ let check_C03 (fields : sexp list) : verdict * string option =
            else (v, cross))
 let check_C18 = check_with false (fun _ _ -> true)
 let check_C09 = check_with false oracle_C09
+(* C04: no crash, no hang, the connection ends (the oracle), and the log equals the model's (in particular: no callback with fabricated data) *)
+let check_C04 = check_with false (fun _ log -> List.for_all (function Crash | OutOfFuel -> false | _ -> true) log && List.exists (function Closed -> true | _ -> false) log)
